@@ -44,6 +44,9 @@ theorem codes_esri : ∀ m, m < 8 → codes[esriPos m]? = some ((2 : Int) ^ m) :
 /-- every non-centre position holds the code of exactly one ESRI direction -/
 theorem codes_esri_surj : ∀ k, k < 9 → k ≠ 4 → ∃ m, m < 8 ∧ esriPos m = k := by decide
 
+/-- the table holds nothing but the sink code and the eight ESRI codes -/
+theorem codes_are_esri_or_zero : ∀ f ∈ codes, f = 0 ∨ ∃ m, m < 8 ∧ f = (2 : Int) ^ m := by decide
+
 /-- **mirror structure**: position `8 - k` holds the code of the opposite direction (`m + 4 mod 8`) -/
 theorem codes_mirror : ∀ m, m < 8 → codes[8 - esriPos m]? = some ((2 : Int) ^ ((m + 4) % 8)) := by decide
 
